@@ -482,6 +482,18 @@ def cc2(repo: Repo) -> RuleResult:
                 part = None
                 break
             part[w] = vals.pop()  # type: ignore[index]
+        if part is None:
+            # a computed form (a loop doubling the size): run the function on each width as a constant argument
+            from .normal import C as _Cw
+
+            part = {}
+            for w in range(1, 65):
+                rets_w = [p_ for p_ in Lbe.flow(None, names={}, havoc_on=()).run(fn, {pn: _Cw(w)}) if p_.done == "return" and p_.ret is not None and not p_.guards]
+                vals = {p_.ret.const_value() for p_ in rets_w}
+                if len(vals) != 1 or None in vals:
+                    part = None
+                    break
+                part[w] = vals.pop()  # type: ignore[index]
         res.inst(part="c-be", function="BpBaseTypeStorageSize", classes=sorted(set(part.values())) if part else None)
         if part is None:
             res.unsure("CC2: BpBaseTypeStorageSize does not fold to one constant per width")
@@ -1201,6 +1213,28 @@ def ec4(repo: Repo) -> RuleResult:
         k = V(kvar)
         it = lp.args[0] if lp.args else None
         ok_loop = it == pcall("range", size)
+        if not ok_loop and getattr(lp, "name", "") == "while" and lp.sub:
+            # a cursor walked until it meets a bound: `while (last != src)` with last = src + size, last -= 1
+            # runs (bound - init) / step times
+            from .pyflow import _atoms_of as _ao
+
+            sp0 = lp.sub[0]
+            tests = [k_ for k_, t_ in sp0.guards if k_[0] == "cmp" and k_[1] == "==" and t_ is False and any(a_[0] == "var" and a_[1].endswith(lp.op) for a_ in _ao(k_[2]))]
+            if len(tests) == 1:
+                x_ = tests[0][2]
+                cur = [a_[1] for a_ in _ao(x_) if a_[0] == "var" and a_[1].endswith(lp.op)]
+                if len(cur) == 1:
+                    nm_ = cur[0][: -len(lp.op)]
+                    init_, end_ = lp.kw.get(nm_), sp0.env.get(nm_)
+                    step_ = (end_ - V(cur[0])).const_value() if init_ is not None and end_ is not None else None
+                    if step_ in (1, -1):
+                        x0 = x_.subst(cur[0], init_)
+                        d_ = (x_.subst(cur[0], init_ + K(step_)) - x0).const_value()
+                        if d_ in (1, -1):
+                            n_iter = x0.scale(-d_)  # x0 + n * d == 0
+                            ok_loop = n_iter == size
+                            if not ok_loop:
+                                it = pcall("range", n_iter)
 
         def address(base: Any, idx: Any, body: Any) -> Optional[Any]:
             """byte address `base + idx` as a function of the iteration number k:
@@ -1239,10 +1273,13 @@ def ec4(repo: Repo) -> RuleResult:
             dst_addr = address(s_.recv, idx, sp) if s_.recv is not None else None
             src_addr = address(va[1], va[2], sp)
             stage_k = stage + k
+            # the reversal is the same permutation whichever side counts upwards
+            native_up = V(pdata) + k
+            stage_down = stage + size - k - K(1)
             if enc:
-                ok_body = ok_body and dst_addr == stage_k and src_addr == want_native
+                ok_body = ok_body and ((dst_addr == stage_k and src_addr == want_native) or (dst_addr == stage_down and src_addr == native_up))
             else:
-                ok_body = ok_body and dst_addr == want_native and src_addr == stage_k
+                ok_body = ok_body and ((dst_addr == want_native and src_addr == stage_k) or (dst_addr == native_up and src_addr == stage_down))
         if not ok_loop:
             a_ = single_atom(it) if it is not None else None
             if a_ is not None and a_[0] == "call" and a_[1] == "range":
